@@ -81,6 +81,8 @@ pub struct BuiltObs {
     pub coll_pct: Option<u64>,
     /// certificates the history has successfully set so far (the interpreter's own mirror builder), as bytes
     pub expected_certs: Vec<Vec<u8>>,
+    /// produced by `build_tx_unsafe` (no final balance / fee validation by the library)
+    pub unsafe_build: bool,
 }
 
 /// An item a redeemer was attached to (ground truth for C10).
@@ -239,6 +241,8 @@ pub struct Session<'a> {
     coll_dirty: bool,
     coll_pct: Option<u64>,
     selected_once: bool,
+    /// the body currently carries a script data hash (placeholder or computed)
+    sdh_present: bool,
 }
 
 fn unit(a: u64, b: u64) -> csl::UnitInterval {
@@ -280,6 +284,7 @@ impl<'a> Session<'a> {
             coll_dirty: false,
             coll_pct: None,
             selected_once: false,
+            sdh_present: false,
         }
     }
 
@@ -877,6 +882,7 @@ impl<'a> Session<'a> {
                 let c = self.certs.build();
                 (0..c.len()).map(|i| c.get(i).to_bytes()).collect()
             },
+            unsafe_build: false,
         });
     }
 
@@ -1530,6 +1536,7 @@ impl<'a> Session<'a> {
             }
             Op::RemoveScriptDataHash => {
                 self.tx.remove_script_data_hash();
+                self.sdh_present = false;
                 self.sdh_at = None;
                 self.mark_value_change();
                 Res::Ok
@@ -1739,6 +1746,11 @@ impl<'a> Session<'a> {
                 let cm = costmdls(*langs);
                 let tx = &mut self.tx;
                 g!(tx.calc_script_data_hash(&cm));
+                if !self.sdh_present {
+                    // a field appears in the body that was not there when the fee was fixed
+                    self.mark_value_change();
+                }
+                self.sdh_present = true;
                 self.sdh_at = Some(idx);
                 self.dirty_sdh = false;
                 self.sdh_langs = *langs;
@@ -1746,6 +1758,10 @@ impl<'a> Session<'a> {
             }
             Op::PresetScriptDataHash => {
                 self.tx.set_script_data_hash(&csl::ScriptDataHash::from_bytes(vec![0u8; 32]).unwrap());
+                if !self.sdh_present {
+                    self.mark_value_change();
+                }
+                self.sdh_present = true;
                 Res::Ok
             }
             Op::Build => {
@@ -1759,6 +1775,16 @@ impl<'a> Session<'a> {
                 let t = g!(tx.build_tx());
                 let body = t.body();
                 self.record_built(idx, true, Some(t), body);
+                Res::Ok
+            }
+            Op::BuildTxUnsafe => {
+                let tx = &self.tx;
+                let t = g!(tx.build_tx_unsafe());
+                let body = t.body();
+                self.record_built(idx, true, Some(t), body);
+                if let Some(b) = self.h.built.last_mut() {
+                    b.unsafe_build = true;
+                }
                 Res::Ok
             }
             Op::Observe => {
